@@ -21,6 +21,7 @@ Record c09_case := {
   n_base : list view;
   n_gen : list view;
   n_heads : list str;
+  n_bheads : list str;          (* head of the BASE result's Error(): "the base rendering" *)
   n_suffix_ok : list bool;
   n_fvals : list (list (str * bool)) }.
 
@@ -90,18 +91,33 @@ Definition gerr_of_view (v : view) : gerr :=
 Definition spec_head (fs : list xfield) (v : view) (obs : list (str * bool)) : str :=
   ext_error_head (gerr_of_view v) (mkX 1 (with_vals fs obs)).
 
-Fixpoint steps_ok (fs : list xfield) (gen : list view) (heads : list str) (suf : list bool)
+(* "in addition to the base rendering", relationally: the base result's Error() head is
+   P ++ M with M = "Message: " ++ its message; the generated head must be P ++ S ++ M where S is
+   one segment per print-tagged field (print name, observed value) in field-name order.  Nothing
+   here reads an extension field to render the base part: a struct field that shadows
+   Name/Source/Message must not leak into P or M. *)
+Definition print_segments (fs : list xfield) (obs : list (str * bool)) : str :=
+  concat (map field_segment (fields_to_print (with_vals fs obs))).
+
+Definition head_rel_ok (fs : list xfield) (bv : view) (bh h : str) (obs : list (str * bool)) : bool :=
+  let lm := length lit_message + length (v_msg bv) in
+  let k := length bh - lm in
+  Nat.leb lm (length bh)
+  && str_eqb (skipn k bh) (lit_message ++ v_msg bv)
+  && str_eqb h (firstn k bh ++ print_segments fs obs ++ skipn k bh).
+
+Fixpoint steps_ok (fs : list xfield) (base : list view) (bheads heads : list str) (suf : list bool)
          (fv : list (list (str * bool))) : bool :=
-  match gen, heads, suf, fv with
-  | [], [], [], [] => true
-  | v :: gen', h :: heads', s :: suf', o :: fv' =>
-      clone_ok fs o && str_eqb h (spec_head fs v o) && s && steps_ok fs gen' heads' suf' fv'
-  | _, _, _, _ => false
+  match base, bheads, heads, suf, fv with
+  | [], [], [], [], [] => true
+  | bv :: base', bh :: bheads', h :: heads', s :: suf', o :: fv' =>
+      clone_ok fs o && head_rel_ok fs bv bh h o && s && steps_ok fs base' bheads' heads' suf' fv'
+  | _, _, _, _, _ => false
   end.
 
 Definition c09_spec_ok (c : c09_case) : bool :=
   views_eqb (n_gen c) (n_base c)
-  && steps_ok (n_fields c) (n_gen c) (n_heads c) (n_suffix_ok c) (n_fvals c).
+  && steps_ok (n_fields c) (n_base c) (n_bheads c) (n_heads c) (n_suffix_ok c) (n_fvals c).
 
 Definition c09_domain (c : c09_case) : bool :=
   forallb no_shortcut (n_steps c)
@@ -114,6 +130,7 @@ Definition c09_judge (c : c09_case) : nat :=
                (match c09_model c with
                 | Some (mb, mg, mh, mf) =>
                     views_eqb (n_base c) mb && views_eqb (n_gen c) mg && strs_eqb (n_heads c) mh
+                    && strs_eqb (n_bheads c) (map (fun v => error_head (gerr_of_view v)) mb)
                     && fvals_eqb (n_fvals c) mf
                 | None => false
                 end).
